@@ -270,3 +270,18 @@ Proof.
   - apply (alt_ok_dyadic _ 5841155522560000 (-44)); [vm_compute; reflexivity | lia | lia | lia | lia].
   - apply (alt_ok_dyadic _ 5909874999296000 (-44)); [vm_compute; reflexivity | lia | lia | lia | lia].
 Qed.
+
+(* ConvertQuadkeysAndVerticalIDsToSpatialIDs: reversed heights are an error there too; on success it is the extended conversion at
+   (z, z) with every ID rewritten from z/x/y/z/f to z/f/x/y *)
+Theorem qv_to_sid_reversed_heights hids l z :
+  (exists q, In q l /\ (q_max q <? q_min q)%float = true) ->
+  qv_to_sid hids l z = Some Err \/ qv_to_sid hids l z = None.
+Proof.
+  intros H. unfold qv_to_sid. destruct (qv_to_ext_reversed_heights hids l z z H) as [E|E]; rewrite E; auto.
+Qed.
+Theorem qv_to_sid_spec hids l z r : qv_to_sid hids l z = Some (Ok r) ->
+  exists a, qv_to_ext hids l z z = Some (Ok a) /\ map_opt eid_to_sid_str a = Some r.
+Proof.
+  unfold qv_to_sid. destruct (qv_to_ext hids l z z) as [[a|]|]; try discriminate.
+  destruct (map_opt eid_to_sid_str a) as [t|] eqn:E; [|discriminate]. intros [= <-]. now exists a.
+Qed.
